@@ -100,6 +100,21 @@ def composition(chk, pid, thorough, seed, rnd):
         hot = [h for h in hs if any(e['ev'] == 'Reply' and not e['ok'] for e in h) and any(e['ev'] == 'PollerDone' for e in h)]
         cold = [h for h in hs if not (any(e['ev'] == 'Reply' and not e['ok'] for e in h) and any(e['ev'] == 'PollerDone' for e in h))]
         hs = hot[:1000] + cold[:500]
+    # guided instance: a unit is executing while its upstream is re-run and fails (the scheduler withdraws the unit's
+    # target although it is still out on a worker); everything from there, maximal histories
+    cfg = os.path.join(chk.work, 'gen_guided.cfg')
+    tlc.write_cfg(cfg, spec='GuidedSpec', constants=sc, extra=['VIEW View', 'ACTION_CONSTRAINT Emit'])
+    res = tlc.run('System_Gen.tla', cfg, workers=1, timeout=1800, out_file=os.path.join(chk.work, 'gen_guided.out'))
+    if not res.ok:
+        raise core.Machinery(f'generation gen_guided failed: {res.error or res.violated}')
+    chk.mc_runs.append(dict(res.summary(), name='gen_guided', module='System_Gen.tla'))
+    guided = leaves([json.loads(r[1])['h'] for r in tlc.printed(res, 'SCHED')])
+    chk.counters['system_guided_histories'] = len(guided)
+    if not thorough:
+        rnd.shuffle(guided)
+        fires = [h for h in guided if any(e['ev'] == 'PollerDone' for e in h)]
+        guided = fires[:1200] + [h for h in guided if not any(e['ev'] == 'PollerDone' for e in h)][:300]
+    hs = hs + guided
     jobs = [{'id': i, 'events': h, 'drain': True} for i, h in enumerate(hs)]
     files = chk.run_harness('compose_h', jobs)
     chk.traces += len(jobs)
